@@ -107,6 +107,7 @@ def Live.step (l : Live) : Op → Live
   | .clearSubs new => Live.reset { l with subs := [] } new
   | .clearCands new => Live.reset { l with cands := [] } new
   | .clearProtos new => Live.reset { l with protos := [], cands := [] } new
+  | .setCores gid cs => { l with genes := l.genes.map fun g => if g.id == gid then { g with cores := cs } else g }
   | _ => l
 
 def liveAfter (ops : List Op) : Live := ops.foldl Live.step {}
